@@ -520,7 +520,12 @@ def run_interface(ctx):
         case = {'op': 'XYXYMatch interface', 'corrector': info, 'use2dhist': use2d, 'shift_px': list(sh),
                 'n': [nc, ner, nei]}
         ctx.case(case, nontrivial=True, branch='interface:%s:2dhist=%s' % ('jwst' if jw else info['kind'], use2d))
-        m = mu.XYXYMatch(searchrad=4.0, separation=0.5, tolerance=2.5 if not use2d else 1.0, use2dhist=use2d)
+        # (search radius, separation and tolerance are in units of the tangent plane - arcsec for gWCS -, so they
+        #  are scaled with the pixel scale; an earlier version of this scenario passed pixel values and raised a
+        #  false alarm on gWCS correctors coarser than 0.083 arcsec/pixel, where 2.5 arcsec exceed the 30-pixel
+        #  spacing of the sources)
+        m = mu.XYXYMatch(searchrad=4.0 * ps, separation=0.5 * ps, tolerance=(2.5 if not use2d else 1.0) * ps,
+                         use2dhist=use2d)
         refcat = Table([np.asarray(ra, dtype=float), np.asarray(dec, dtype=float)], names=('RA', 'DEC'))
         imcat = Table([im_xy[:, 0], im_xy[:, 1]], names=('x', 'y'))
         try:
